@@ -87,11 +87,11 @@ def gen_case(r, tier):
             sched.append("%d:%d:D" % (it - it % 5 if r.randint(0, 3) else it, r.randint(0, 3)))     # mostly in a divider iteration
         else:
             sched.append("%d:%d:R" % (it, r.randint(0, 3)))
-    if r.randint(0, 9) == 0:      # the whole population disappears in one iteration
+    if r.randint(0, 12) == 0:      # the whole population disappears in one iteration
         it = r.randint(0, max(0, niter - 1))
         sched += ["%d:%d:R" % (it, p) for p in range(2 * (n + nev) + 1)]
     g = r.choice([0.0, 0.0, 0.4, -0.3, 1.0])
-    minv = r.choice([0.0, 0.0, 0.0, 0.0, 0.0, 0.0, 0.999, 0.98]) if phys else 0.0
+    minv = r.choice([0.0] * 9 + [0.999, 0.98]) if phys else 0.0
     gap = r.choice([5.0, 5.0, 0.15])
     return mk(T, dt, S, mesh=mesh, n=n, instr=r.randint(0, 1), phys=phys, g=g, minv=minv, gap=gap, sched=",".join(sched), tag="gen")
 
